@@ -44,10 +44,13 @@ VARIABLES p,         \* Layer-P monitor (ConnP)
           sq,        \* writeSched.sq[s]: [f, notify]
           needAck, ga, needGA, conn,
           hs, hk, hprog, hsent, hret, sent, mineM,
-          tag, turn, nstep, ndata, nhdrs
+          tag, turn, nstep, ndata, nhdrs,
+          last,      \* the stimulus being answered (E0 at quiescent points)
+          holdM      \* HEADERS without END_HEADERS waiting for its CONTINUATION
 
 mvars == <<st, maxId, inC, inS, buf, bst, clM, bodyM, outC, outS, iwsM, mfsM, ctl, sq, needAck,
-           ga, needGA, conn, hs, hk, hprog, hsent, hret, sent, mineM, tag, turn, nstep, ndata, nhdrs>>
+           ga, needGA, conn, hs, hk, hprog, hsent, hret, sent, mineM, tag, turn, nstep, ndata, nhdrs,
+           last, holdM>>
 vars == <<p, mvars>>
 
 Fr(k, s) == [E0 EXCEPT !.ev = "s", !.k = k, !.s = s]
@@ -79,6 +82,7 @@ Init ==
   /\ hsent = [s \in Sid |-> FALSE] /\ hret = [s \in Sid |-> FALSE]
   /\ sent = [s \in Sid |-> 0] /\ mineM = [s \in Sid |-> TRUE]
   /\ tag = 0 /\ turn = "stim" /\ nstep = 0 /\ ndata = 0 /\ nhdrs = 0
+  /\ last = E0 /\ holdM = E0
 
 (***************************************************************************)
 (* Effects shared by several actions, written as functions of a "delta"    *)
@@ -123,8 +127,9 @@ ConnClosed(d) ==
             !.bst = [s \in Sid |-> IF @[s] = "none" THEN "none" ELSE "err"],
             !.buf = [s \in Sid |-> <<>>], !.sq = [s \in Sid |-> <<>>], !.ctl = <<>>]
 
-Stimulus == turn = "stim" /\ conn = "up" /\ ga = -1 /\ nstep < MaxSteps /\ ~p.dead
-AfterStim == turn' = "run" /\ nstep' = nstep + 1
+StimAny == turn = "stim" /\ conn = "up" /\ ga = -1 /\ nstep < MaxSteps /\ ~p.dead
+Stimulus == StimAny /\ holdM.k = ""
+After(e) == turn' = "run" /\ nstep' = nstep + 1 /\ last' = e
 
 (***************************************************************************)
 (* Client frames                                                           *)
@@ -133,11 +138,8 @@ FramerLevel == {"upper", "pseudoafter", "badpseudo", "resppseudo", "duppath",
                 "trailersupper"}          \* rejected by readMetaFrame (StreamError PROTOCOL)
 ReqLevel == {"nomethod", "nopath", "emptypath", "noscheme"}   \* newWriterAndRequest
 
-ClientHeaders(s, r, es, cl) ==
-  LET e == [E0 EXCEPT !.ev = "c", !.k = "HEADERS", !.s = s, !.req = r, !.es = es, !.cl = cl] IN
-  /\ Stimulus /\ "HEADERS" \in CKinds /\ nhdrs < MaxHdrs
-  /\ p' = PClient(p, e)
-  /\ AfterStim /\ nhdrs' = nhdrs + 1
+\* processFrame for a complete header block (HEADERS, or HEADERS + CONTINUATION)
+HeadersEffect(s, r, es, cl) ==
   /\ IF r \in FramerLevel THEN
        /\ Apply(StreamErr(Cur, s, PROTOCOL))
        /\ UNCHANGED <<maxId, inS, clM, bodyM, outC, outS, iwsM, mfsM, needAck, hk, hsent, hret,
@@ -176,13 +178,45 @@ ClientHeaders(s, r, es, cl) ==
                                               ELSE <<Q([Fr("HEADERS", s) EXCEPT !.code = 400], TRUE),
                                                      Q([Fr("DATA", s) EXCEPT !.n = N400, !.es = TRUE], TRUE)>>])
 
+
+ClientHeaders(s, r, es, cl) ==
+  LET e == [E0 EXCEPT !.ev = "c", !.k = "HEADERS", !.s = s, !.req = r, !.es = es, !.cl = cl] IN
+  /\ Stimulus /\ "HEADERS" \in CKinds /\ nhdrs < MaxHdrs
+  /\ p' = PClient(p, e) /\ After(e) /\ nhdrs' = nhdrs + 1 /\ UNCHANGED holdM
+  /\ HeadersEffect(s, r, es, cl)
+
+\* HEADERS without END_HEADERS: the framer waits for CONTINUATION, nothing reaches serve()
+ClientHeadersNEH(s, r, es) ==
+  LET e == [E0 EXCEPT !.ev = "c", !.k = "HEADERS", !.s = s, !.req = r, !.es = es, !.op = "neh"] IN
+  /\ Stimulus /\ "NEH" \in CKinds /\ nhdrs < MaxHdrs
+  /\ p' = PClient(p, e) /\ After(e) /\ nhdrs' = nhdrs + 1 /\ holdM' = e
+  /\ Apply(Cur)
+  /\ UNCHANGED <<maxId, inS, clM, bodyM, outC, outS, iwsM, mfsM, needAck, hk, hsent, hret, sent,
+                 mineM, tag, ndata>>
+
+\* the CONTINUATION completes the block
+ClientCont ==
+  LET e == [E0 EXCEPT !.ev = "c", !.k = "CONT", !.s = holdM.s] IN
+  /\ StimAny /\ holdM.k # ""
+  /\ p' = PClient(p, e) /\ After(e) /\ holdM' = E0 /\ UNCHANGED nhdrs
+  /\ HeadersEffect(holdM.s, holdM.req, holdM.es, -1)
+
+\* any other frame inside a header block: checkFrameOrder -> connection error
+ClientBreak(k) ==
+  LET e == [E0 EXCEPT !.ev = "c", !.k = k, !.s = 0, !.inc = IF k = "PING" THEN nstep + 1 ELSE 0] IN
+  /\ StimAny /\ holdM.k # ""
+  /\ p' = PClient(p, e) /\ After(e) /\ holdM' = E0
+  /\ Apply(ConnErr(Cur, PROTOCOL))
+  /\ UNCHANGED <<maxId, inS, clM, bodyM, outC, outS, iwsM, mfsM, needAck, hk, hsent, hret, sent,
+                 mineM, tag, ndata, nhdrs>>
+
 ClientData(s, L, pad, es) ==
   LET t == ((tag + 1) % 250) + 1      \* octet value filling this frame's payload
       d == L - pad
       e == [E0 EXCEPT !.ev = "c", !.k = "DATA", !.s = s, !.n = L, !.p = pad, !.es = es, !.first = t] IN
   /\ Stimulus /\ "DATA" \in CKinds /\ ndata < MaxData /\ pad <= L
   /\ p' = PClient(p, e)
-  /\ AfterStim /\ tag' = tag + 1 /\ ndata' = ndata + 1
+  /\ After(e) /\ tag' = tag + 1 /\ ndata' = ndata + 1 /\ UNCHANGED holdM
   /\ UNCHANGED <<maxId, clM, outC, outS, iwsM, mfsM, needAck, hk, hsent, hret, sent, mineM, nhdrs>>
   /\ IF st[s] # "open" THEN
        /\ UNCHANGED <<inS, bodyM>>
@@ -211,7 +245,7 @@ ClientData(s, L, pad, es) ==
 ClientRst(s, c) ==
   LET e == [E0 EXCEPT !.ev = "c", !.k = "RST", !.s = s, !.code = c] IN
   /\ Stimulus /\ "RST" \in CKinds
-  /\ p' = PClient(p, e) /\ AfterStim
+  /\ p' = PClient(p, e) /\ After(e) /\ UNCHANGED holdM
   /\ UNCHANGED <<maxId, inS, clM, bodyM, outC, outS, iwsM, mfsM, needAck, hk, hsent, hret, sent,
                  mineM, tag, ndata, nhdrs>>
   /\ IF st[s] = "idle" /\ s > maxId THEN Apply(ConnErr(Cur, PROTOCOL))
@@ -221,7 +255,7 @@ ClientRst(s, c) ==
 ClientWu(s, inc) ==
   LET e == [E0 EXCEPT !.ev = "c", !.k = "WU", !.s = s, !.inc = inc] IN
   /\ Stimulus /\ "WU" \in CKinds
-  /\ p' = PClient(p, e) /\ AfterStim
+  /\ p' = PClient(p, e) /\ After(e) /\ UNCHANGED holdM
   /\ UNCHANGED <<maxId, inS, clM, bodyM, iwsM, mfsM, needAck, hk, hsent, hret, sent, mineM, tag,
                  ndata, nhdrs>>
   /\ IF inc = 0 THEN                           \* parseWindowUpdateFrame
@@ -240,13 +274,13 @@ ClientSettings(iws, mfs) ==
   LET e == [E0 EXCEPT !.ev = "c", !.k = "SETTINGS", !.iws = iws, !.mfs = mfs]
       niws == IF iws >= 0 THEN iws ELSE iwsM IN
   /\ Stimulus /\ "SETTINGS" \in CKinds
-  /\ p' = PClient(p, e) /\ AfterStim
+  /\ p' = PClient(p, e) /\ After(e) /\ UNCHANGED holdM
   /\ UNCHANGED <<maxId, inS, clM, bodyM, outC, hk, hsent, hret, sent, mineM, tag, ndata, nhdrs>>
   /\ IF iws = -2 THEN UNCHANGED <<outS, iwsM, mfsM, needAck>> /\ Apply(ConnErr(Cur, FLOW))
      ELSE IF \E s \in Sid : InMap(s) /\ Over(outS[s], niws - iwsM) THEN
        \* the code has already moved sc.initialWindowSize and some streams; it ends the connection
        UNCHANGED <<outS, iwsM, mfsM, needAck>> /\ Apply(ConnErr(Cur, FLOW))
-     ELSE IF mfs >= 0 /\ (mfs < 16384 \/ mfs > 16777215) THEN
+     ELSE IF mfs >= 0 /\ (mfs < MfsMin \/ mfs > MfsMax) THEN
        UNCHANGED <<outS, iwsM, mfsM, needAck>> /\ Apply(ConnErr(Cur, PROTOCOL))
      ELSE
        /\ outS' = [s \in Sid |-> IF InMap(s) THEN outS[s] + (niws - iwsM) ELSE outS[s]]
@@ -256,7 +290,7 @@ ClientSettings(iws, mfs) ==
 ClientPing ==
   LET e == [E0 EXCEPT !.ev = "c", !.k = "PING", !.inc = nstep + 1] IN
   /\ Stimulus /\ "PING" \in CKinds
-  /\ p' = PClient(p, e) /\ AfterStim
+  /\ p' = PClient(p, e) /\ After(e) /\ UNCHANGED holdM
   /\ UNCHANGED <<maxId, inS, clM, bodyM, outC, outS, iwsM, mfsM, needAck, hk, hsent, hret, sent,
                  mineM, tag, ndata, nhdrs>>
   /\ Apply([Cur EXCEPT !.ctl = Append(@, [Fr("PINGACK", 0) EXCEPT !.inc = nstep + 1])])
@@ -265,7 +299,7 @@ ClientPing ==
 ClientNoEffect(k, s) ==
   LET e == [E0 EXCEPT !.ev = "c", !.k = k, !.s = s] IN
   /\ Stimulus /\ k \in CKinds
-  /\ p' = PClient(p, e) /\ AfterStim
+  /\ p' = PClient(p, e) /\ After(e) /\ UNCHANGED holdM
   /\ UNCHANGED <<maxId, inS, clM, bodyM, outC, outS, iwsM, mfsM, needAck, hk, hsent, hret, sent,
                  mineM, tag, ndata, nhdrs>>
   /\ Apply(Cur)
@@ -274,7 +308,7 @@ ClientNoEffect(k, s) ==
 ClientConnErr(k, s) ==
   LET e == [E0 EXCEPT !.ev = "c", !.k = k, !.s = s] IN
   /\ Stimulus /\ k \in CKinds
-  /\ p' = PClient(p, e) /\ AfterStim
+  /\ p' = PClient(p, e) /\ After(e) /\ UNCHANGED holdM
   /\ UNCHANGED <<maxId, inS, clM, bodyM, outC, outS, iwsM, mfsM, needAck, hk, hsent, hret, sent,
                  mineM, tag, ndata, nhdrs>>
   /\ Apply(ConnErr(Cur, PROTOCOL))
@@ -285,7 +319,7 @@ ClientConnErr(k, s) ==
 HCmd(s, op, n) ==
   LET e == [E0 EXCEPT !.ev = "hc", !.s = s, !.op = op, !.n = n] IN
   /\ Stimulus /\ op \in HOps /\ hs[s] = "idle"
-  /\ p' = PHcmd(p, e) /\ AfterStim
+  /\ p' = PHcmd(p, e) /\ After(e) /\ UNCHANGED holdM
   /\ UNCHANGED <<st, maxId, inC, inS, buf, bst, clM, bodyM, outC, outS, iwsM, mfsM, ctl, sq, needAck,
                  ga, needGA, conn, sent, mineM, tag, ndata, nhdrs>>
   /\ CASE op = "read" -> /\ hs' = [hs EXCEPT ![s] = "rd"] /\ hk' = [hk EXCEPT ![s] = n]
@@ -314,7 +348,7 @@ HStart(s) ==
   /\ hs' = [hs EXCEPT ![s] = "idle"]
   /\ p' = PHandler(p, [E0 EXCEPT !.ev = "h", !.s = s, !.op = "start"])
   /\ UNCHANGED <<st, maxId, inC, inS, buf, bst, clM, bodyM, outC, outS, iwsM, mfsM, ctl, sq, needAck,
-                 ga, needGA, conn, hk, hprog, hsent, hret, sent, mineM, tag, turn, nstep, ndata, nhdrs>>
+                 ga, needGA, conn, hk, hprog, hsent, hret, sent, mineM, tag, turn, nstep, ndata, nhdrs, last, holdM>>
 
 \* writeFrameFromHandler: the message reaches serve() and is queued (or, on a closed stream,
 \* skipped by startFrameWrite: only zero-cost frames get here, see HCmd)
@@ -327,7 +361,7 @@ HPush(s) ==
        ELSE /\ sq' = sq /\ hprog' = [hprog EXCEPT ![s] = <<>>]
             /\ hs' = [hs EXCEPT ![s] = IF hret[s] THEN "gone" ELSE "idle"]
   /\ UNCHANGED <<p, st, maxId, inC, inS, buf, bst, clM, bodyM, outC, outS, iwsM, mfsM, ctl, needAck,
-                 ga, needGA, conn, hk, hsent, hret, sent, mineM, tag, turn, nstep, ndata, nhdrs>>
+                 ga, needGA, conn, hk, hsent, hret, sent, mineM, tag, turn, nstep, ndata, nhdrs, last, holdM>>
 
 \* RequestBody.Read returns; noteBodyRead on the serve loop
 HReadDone(s) ==
@@ -345,7 +379,7 @@ HReadDone(s) ==
                /\ sq' = [sq EXCEPT ![s] = Append(@, Q([Fr("WU", s) EXCEPT !.inc = n], FALSE))]
           ELSE UNCHANGED <<inS, sq>>
   /\ UNCHANGED <<st, maxId, bst, clM, bodyM, outC, outS, iwsM, mfsM, needAck, ga, needGA, conn, hk,
-                 hprog, hsent, hret, sent, mineM, tag, turn, nstep, ndata, nhdrs>>
+                 hprog, hsent, hret, sent, mineM, tag, turn, nstep, ndata, nhdrs, last, holdM>>
 
 (***************************************************************************)
 (* scheduleFrameWrite + writeFrames + wroteFrame                           *)
@@ -410,7 +444,8 @@ WriteData(s) ==
 WriteFrame ==
   /\ Running
   /\ WriteGoAway \/ WriteAck \/ WriteCtl \/ (\E s \in Sid : WriteNoCost(s)) \/ (\E s \in Sid : WriteData(s))
-  /\ UNCHANGED <<maxId, clM, bodyM, iwsM, mfsM, hk, hsent, hret, mineM, tag, turn, nstep, ndata, nhdrs>>
+  /\ UNCHANGED <<maxId, clM, bodyM, iwsM, mfsM, hk, hsent, hret, mineM, tag, turn, nstep, ndata, nhdrs,
+                 last, holdM>>
 
 CanWrite == needGA \/ needAck \/ ((ga = -1 \/ ga = NOERR) /\ (ctl # <<>> \/ \E s \in Sid : NoCost(s) \/ CanData(s)))
 Busy == conn = "up" /\ (CanWrite \/ \E s \in Sid : hs[s] = "new" \/ (hs[s] = "push" /\ hprog[s] # <<>>)
@@ -419,9 +454,10 @@ Busy == conn = "up" /\ (CanWrite \/ \E s \in Sid : hs[s] = "new" \/ (hs[s] = "pu
 Quiesce ==
   /\ turn = "run" /\ ~Busy
   /\ p' = PQuiesce(p, [E0 EXCEPT !.ev = "q", !.closed = conn = "closed"])
-  /\ turn' = "stim"
+  /\ turn' = "stim" /\ last' = E0
   /\ UNCHANGED <<st, maxId, inC, inS, buf, bst, clM, bodyM, outC, outS, iwsM, mfsM, ctl, sq, needAck,
-                 ga, needGA, conn, hs, hk, hprog, hsent, hret, sent, mineM, tag, nstep, ndata, nhdrs>>
+                 ga, needGA, conn, hs, hk, hprog, hsent, hret, sent, mineM, tag, nstep, ndata, nhdrs,
+                 holdM>>
 
 StimNext ==
   \/ \E s \in SidsUsed, r \in Reqs, es \in BOOLEAN, cl \in CLs :
@@ -433,6 +469,8 @@ StimNext ==
   \/ \E s \in SidsUsed \cup {0}, inc \in WuIncs : ClientWu(s, inc)
   \/ \E iws \in IwsVals, mfs \in MfsVals : (iws # -1 \/ mfs # -1) /\ ClientSettings(iws, mfs)
   \/ ClientPing
+  \/ \E s \in SidsUsed, r \in Reqs, es \in BOOLEAN : ClientHeadersNEH(s, r, es)
+  \/ ClientCont \/ ClientBreak("PING") \/ ClientBreak("SETTINGS")
   \/ \E s \in SidsUsed : ClientNoEffect("PRIORITY", s)
   \/ ClientNoEffect("PINGACK", 0) \/ ClientNoEffect("UNKNOWN", 0)
   \/ ClientConnErr("CONT", CHOOSE s \in SidsUsed : TRUE) \/ ClientConnErr("PUSH", CHOOSE s \in SidsUsed : TRUE)
@@ -458,8 +496,8 @@ NoInternalPanic ==
 
 \* Layer-M bookkeeping agrees with what the client can compute from the wire
 Agree == turn = "stim" /\ conn = "up" /\ ga = -1 /\ ~p.dead =>
-           /\ p.cw = inC /\ p.ocw = outC
-           /\ \A s \in Sid : InMap(s) => (p.osw[s] = outS[s] /\ (st[s] = "open" => p.sw[s] = inS[s]))
+           /\ p.ocw = outC /\ (p.compliant => p.cw = inC)
+           /\ \A s \in Sid : InMap(s) => (p.osw[s] = outS[s] /\ (st[s] = "open" /\ p.compliant => p.sw[s] = inS[s]))
            /\ \A s \in Sid : (st[s] = "open") = (p.ph[s] = "open")
            /\ \A s \in Sid : (st[s] = "hcr") = (p.ph[s] = "hcr")
 =============================================================================
